@@ -221,6 +221,7 @@ def run_case(case):
                 'samples': samples, 'nontrivial': nontrivial}
 
     # ------------------------------ move_mol_atom -------------------------------------------------
+    deadline = __import__('time').time() + 0.6 * CASE_TIMEOUT[case.get('tier', 'quick')]
     n = case['n']
     pops = []
 
@@ -304,6 +305,10 @@ def run_case(case):
                     child = a if parent.get(a) == b else b
                     par = b if child == a else a
                     claim = sum((expr(out[a][k]) - expr(out[b][k])) ** 2 for k in range(3)) == bv[(min(a, b), max(a, b))] ** 2
+                    if __import__('time').time() > deadline:
+                        # out of wall time for this case: the remaining obligations are left undecided (never counted as passed)
+                        records.append({'name': '%s: bond %d-%d has its tabulated length (case time budget used up)' % (tag, a, b), 'status': 'unknown', 'secs': 0})
+                        continue
                     # let-abstraction: the parent's final position becomes three fresh reals
                     q = [z3.Real('q!abs%d' % k) for k in range(3)]
                     sub = [(expr(out[par][k]), q[k]) for k in range(3)]
